@@ -308,7 +308,9 @@ C06Dest(v, b, dt, dd) ==
      ipid_base |-> b.ipid_base, echo_base |-> b.echo_base, seq_base32 |-> b.seq_base, isn32 |-> b.isn, sack_perm |-> TRUE, sack_ts |-> FALSE,
      id |-> "C06/dest/" \o v \o "/" \o b.name \o "/" \o ToString(dt) \o "/" \o ToString(dd), label |-> v \o "/stop_after_dest",
      path |-> PathOf([t \in 1..8 |-> IF t >= dt THEN <<Dest(v, dd)>> ELSE <<TE(v, t, 2000)>>])]
-C06All(u) == { C06Full(v, b, r[1], r[2]) : v \in Variants, b \in Bases, r \in {<<1, 255>>, <<200, 255>>, <<1, 30>>} }
+\* the destination (and every router) answers while the sender is still inside the write of that probe
+C06Eager(v, dt) == [C06Dest(v, BaseMid, dt, 0) EXCEPT !.id = "C06/eager/" \o v \o "/" \o ToString(dt), !.label = v \o "/stop_after_dest/eager"] @@ [eager |-> TRUE]
+C06All(u) == { C06Eager(v, dt) : v \in Variants, dt \in {2, 3, 5} } \cup { C06Full(v, b, r[1], r[2]) : v \in Variants, b \in Bases, r \in {<<1, 255>>, <<200, 255>>, <<1, 30>>} }
           \cup { C06Dest(v, b, dt, dd) : v \in Variants, b \in Bases, dt \in {1, 2, 5, 8}, dd \in {500, 29000, 31000, 95000} }
 
 ---------------------------------------------------------------------------
